@@ -18,12 +18,20 @@ func main() {
 	switch c.Prop {
 	case "C01":
 		r = codec.C01(c)
+	case "C02":
+		r = codec.C02(c)
 	case "C08":
 		r = codec.C08(c)
 	case "C10":
 		r = codec.C10(c)
 	case "C12":
 		r = codec.C12(c)
+	case "C13":
+		r = codec.C13(c)
+	case "C16":
+		r = codec.C16Dynamic(c)
+	case "C17":
+		r = codec.C17(c)
 	case "GOLDEN":
 		if err := codec.MakeGolden(c, c.Out); err != nil {
 			fmt.Fprintln(os.Stderr, err)
